@@ -184,6 +184,8 @@ Definition s_c02 (pre post : obs) (blk : block) (sender : addr) (o : op) (ok : b
                                   || (ok && al_change_ok p q blk sender o (fst k) (snd k))) (pair_keys p q)) then 2
   else if ok && negb (list_eqb msg_eqb ms (expected_msgs sender o)) then 3
   else if negb ok && negb (match ms with [] => true | _ => false end) then 4
+  else if ok && match draw_of o with Some _ => negb (s_c01_delta p q sender o) | None => false end then 5
+       (* a draw did not move exactly the amount: debit of the owner, credit of the recipient, nothing else *)
   else 0.
 
 (* ---------------------------------------------------------------------------------------- *)
